@@ -42,6 +42,9 @@ Definition instantiate (http_names : list string) (template : string) : list str
     map (fun w => join_with "." (map (fun s => if String.eqb s "%any%" then w else s) segs)) names
   else [template].
 
+(* the linter context after the declarations of the observation preamble *)
+Definition the_ctx : lint_ctx := declared_ctx backend_names director_names ratecounter_names.
+
 Definition var_ops : list string := ["get"; "set"; "unset"].
 
 Definition var_rows (http_names : list string) : list (string * string * string) :=
